@@ -1,8 +1,17 @@
 /-
-C09 driver: {"op":"visit","py":{"kind":..,"op":..,"nops":n,"children":[..]}} -> {"refuses":bool}
+C09 driver: one JSON request per line on stdin, one JSON answer per line on stdout.
+  {"op":"visit","py":{"kind":..,"op":..,"nops":n,"children":[..]}}          -> {"unsupported":bool,"refuses":bool}
+  {"op":"call","arity":k,"is_method":b,"nargs":n,"as_method":b}             -> {"malformed":bool,"refuses":bool}
+  {"op":"md","mds":[{"ty":str|null,"keys":[..],"cc":bool},..]}              -> {"malformed":bool,"refuses":bool}
+  {"op":"inject","blocks":[{"name":..,"fields":[[..],..]},..]}              -> {"malformed":bool,"refuses":bool}
+  {"op":"job","blocks":[{"name":..,"script":[..],"deps":[..]},..]}          -> {"malformed":bool,"refuses":bool,"conflict":b,"missing":b,"cyclic":b}
+`malformed` is the Spec predicate on the input (the harness combines it with the outcome it
+observed: `refusedIfMalformed`), `refuses` is the model's own verdict.
+Run: lake env lean --run FaxVerif/C09/Driver.lean
 -/
 import Lean.Data.Json
 import FaxVerif.C09.Model
+import FaxVerif.C09.Spec
 open Lean FaxVerif.C09
 
 partial def decPy (j : Json) : Except String Py := do
@@ -12,12 +21,58 @@ partial def decPy (j : Json) : Except String Py := do
   let ch ← (← (← j.getObjVal? "children").getArr?).toList.mapM decPy
   pure (.node kind op nops ch)
 
+def strList (j : Json) : Except String (List String) := do
+  let a ← j.getArr?
+  a.toList.mapM (·.getStr?)
+
+def isErr {ε α : Type} : Except ε α → Bool
+  | .ok _ => false
+  | .error _ => true
+
+def answer (malformed refuses : Bool) (more : List (String × Json) := []) : Json :=
+  Json.mkObj ([("malformed", Json.bool malformed), ("refuses", Json.bool refuses)] ++ more)
+
+def handleOp (j : Json) : Except String Json := do
+  let op ← (← j.getObjVal? "op").getStr?
+  if op == "visit" then
+    let p ← decPy (← j.getObjVal? "py")
+    pure (Json.mkObj [("unsupported", hasUnsupported p), ("refuses", isErr (visit p))])
+  else if op == "call" then
+    let s : FnSpec := ⟨"", ← (← j.getObjVal? "arity").getNat?, ← (← j.getObjVal? "is_method").getBool?⟩
+    let c : CallSite := ⟨← (← j.getObjVal? "nargs").getNat?, ← (← j.getObjVal? "as_method").getBool?⟩
+    pure (answer (!callWellFormed s c) (isErr (buildCall s c)))
+  else if op == "md" then
+    let ms ← (← (← j.getObjVal? "mds").getArr?).toList.mapM fun m => do
+      let ty := match m.getObjVal? "ty" with
+        | .ok (.str t) => some t
+        | _ => none
+      let keys ← strList (← m.getObjVal? "keys")
+      let cc ← (← m.getObjVal? "cc").getBool?
+      pure ({ ty, keys, cc } : Md)
+    pure (answer (ms.any mdMalformed) (isErr (mdAll ms)))
+  else if op == "inject" then
+    let bs ← (← (← j.getObjVal? "blocks").getArr?).toList.mapM fun b => do
+      let name ← (← b.getObjVal? "name").getStr?
+      let fields ← (← (← b.getObjVal? "fields").getArr?).toList.mapM strList
+      pure ({ name, fields } : IB)
+    pure (answer (injectConflict bs) (isErr (injectAdd bs [])))
+  else if op == "job" then
+    let bs ← (← (← j.getObjVal? "blocks").getArr?).toList.mapM fun b => do
+      let name ← (← b.getObjVal? "name").getStr?
+      let script ← strList (← b.getObjVal? "script")
+      let deps ← strList (← b.getObjVal? "deps")
+      pure ({ name, script, deps } : FaxVerif.C15.JB)
+    pure (answer (jobMalformedB bs) (isErr (FaxVerif.C15.genScript bs))
+      [("conflict", Json.bool (decide (FaxVerif.C15.Conflict bs))), ("missing", Json.bool (decide (FaxVerif.C15.Missing bs))),
+       ("cyclic", Json.bool (!FaxVerif.C15.acyclicB bs))])
+  else throw s!"unknown op {op}"
+
 def handle (line : String) : String :=
   match Json.parse line with
   | .error e => (Json.mkObj [("bad", e)]).compress
   | .ok j =>
-    match (do let p ← decPy (← j.getObjVal? "py"); pure (hasUnsupported p, match visit p with | .ok _ => false | .error _ => true) : Except String (Bool × Bool)) with
-    | .ok (u, r) => (Json.mkObj [("unsupported", u), ("refuses", r)]).compress
+    match handleOp j with
+    | .ok r => r.compress
     | .error e => (Json.mkObj [("bad", e)]).compress
 
 partial def loopIO (h : IO.FS.Stream) (out : IO.FS.Stream) : IO Unit := do
